@@ -283,7 +283,12 @@ func genLog(r *rand.Rand, format int, nBatches int, emptyBias int) (items []Item
 				continue
 			}
 			if r.Intn(2) == 0 && bi%2 == 0 {
-				items = append(items, Item{Format: f, Codec: 1 + r.Intn(3), Base: base, Recs: recs})
+				w := Item{Format: f, Codec: 1 + r.Intn(3), Base: base, Recs: recs}
+				if r.Intn(3) == 0 {
+					w.WrapKey = make([]byte, r.Intn(9)) // a wrapper with a key (empty or not): legal, carried by nobody
+					r.Read(w.WrapKey)
+				}
+				items = append(items, w)
 			} else {
 				for _, rc := range recs {
 					items = append(items, Item{Format: f, Recs: []Rec{rc}})
@@ -364,6 +369,13 @@ func corpus() {
 		// compacted tail, plain and compressed
 		fetchCase(ver, 100, 130, []Item{data(100, 109, 100, 101)}, -1)
 		fetchCase(ver, 100, 130, []Item{{Format: 2, Codec: 1, Base: 100, Last: 109, Recs: recs(100, 101)}}, -1)
+		// a compressed v0/v1 wrapper that carries a key (C05-D31): its inner messages are the records
+		for _, f := range []int{0, 1} {
+			for _, k := range [][]byte{{}, {1}, []byte("wrapper-key")} {
+				fetchCase(ver, 100, 130, []Item{{Format: f, Codec: 1, Base: 100, Recs: recs(100, 101, 102), WrapKey: k}}, -1)
+				fetchCase(ver, 101, 130, []Item{{Format: f, Codec: 1, Base: 100, Recs: recs(100, 101, 102), WrapKey: k}, {Format: f, Recs: recs(103)}}, -1)
+			}
+		}
 		// iterated: D4 duplicates forever
 		iterCase(ver, 100, 112, []Item{data(100, 104, 100, 101, 102, 103, 104), empty(105, 109), data(110, 111, 110, 111)}, []int{1 << 20})
 		iterCase(ver, 100, 112, []Item{data(100, 104, 100, 101, 102, 103, 104), empty(105, 109), data(110, 111, 110, 111)}, []int{150})
@@ -427,6 +439,9 @@ func main() {
 	tokCases(gen.New(), thorough)
 	logAppendCases(thorough)
 	controlCases(thorough)
+	earlyCloseCases()
+	readVsCases(thorough)
+	growCases(thorough)
 	expiredCases(r, thorough)
 	readerCases(r, thorough)
 }
